@@ -131,20 +131,26 @@ class RecorderRoles(object):
         for k in ('operation', 'input', 'output'):
             if k not in self.closures:
                 raise AnalysisError('anchor-lost role=%s-closure' % k)
-        # ---- executor: method with a parameter that is called inside `with self.<contextmanager>()`
+        # ---- executor: the method called from both the input and the output closure that invokes one of its
+        #      parameters as a callable (the wrapped function)
+        def called_methods(fn):
+            return {n.func.attr for n in ast.walk(fn.node) if isinstance(n, ast.Call) and _self_attr(n.func)}
+        common = called_methods(self.closures['input'][2]) & called_methods(self.closures['output'][2])
         execs = []
-        for m in c.methods.values():
-            for w in [n for n in walk_own(m.node) if isinstance(n, ast.With)]:
-                cm = w.items[0].context_expr
-                if isinstance(cm, ast.Call) and _self_attr(cm.func) and c.lookup(cm.func.attr) is not None and \
-                        c.lookup(cm.func.attr).is_contextmanager:
-                    for n in ast.walk(w):
-                        if isinstance(n, ast.Call) and isinstance(n.func, ast.Name) and n.func.id in m.params:
-                            execs.append(m)
-        self.executor = self._onef('interception-executor', list({id(x): x for x in execs}.values()))
+        for nm in sorted(common):
+            m = c.lookup(nm)
+            if m is None or m.is_property:
+                continue
+            if any(isinstance(n, ast.Call) and isinstance(n.func, ast.Name) and n.func.id in m.params[1:]
+                   for n in walk_own(m.node)):
+                execs.append(m)
+        self.executor = self._onef('interception-executor', execs)
         self.interception_cm = None
         for w in [n for n in walk_own(self.executor.node) if isinstance(n, ast.With)]:
-            self.interception_cm = c.lookup(w.items[0].context_expr.func.attr)
+            cm = w.items[0].context_expr
+            if isinstance(cm, ast.Call) and _self_attr(cm.func) and c.lookup(cm.func.attr) is not None and \
+                    c.lookup(cm.func.attr).is_contextmanager:
+                self.interception_cm = c.lookup(cm.func.attr)
         # ---- replay reader: method reading the playback field and raising / returning envelope entries
         readers = [m for m in c.methods.values() if m is not self.play and not m.is_property and any(
             isinstance(n, ast.Raise) and isinstance(n.exc, ast.Subscript) for n in walk_own(m.node)) and any(
